@@ -310,20 +310,22 @@ func lookupRules(pl *pool, grs, gsr *ssa.Function, R func(string) string, strict
 	KF, HR, FB := gcs.Atom("keyFound"), gcs.Atom("homeReady"), gcs.Atom("fallback")
 	homeRet := gcs.False()
 	nret := 0
-	for i, r := range returnsOf(grs) {
+	for i, vr := range gcs.VirtualReturns() {
+		// (a return of values merged from several branches is split per way of arriving)
 		nret++
+		r := vr.Ret
 		construct := fmt.Sprintf("getReadySubConnRef return#%d", i+1)
-		reach := gcs.Reach(r)
-		foundTrue, _ := allOrigins(r.Results[1], func(o Origin) bool {
+		reach := vr.Cond
+		foundTrue, _ := allOrigins(vr.Vals[1], func(o Origin) bool {
 			return o.Kind == "const" && o.Val.(*ssa.Const).Value != nil && o.Val.(*ssa.Const).Value.String() == "true"
 		})
-		foundFalse, _ := allOrigins(r.Results[1], func(o Origin) bool {
+		foundFalse, _ := allOrigins(vr.Vals[1], func(o Origin) bool {
 			return o.Kind == "const" && o.Val.(*ssa.Const).Value != nil && o.Val.(*ssa.Const).Value.String() == "false"
 		})
-		v, onlyNil, ok := slotOrigin(r.Results[0])
+		v, onlyNil, ok := slotOrigin(vr.Vals[0])
 		switch {
 		case !ok || (!foundTrue && !foundFalse):
-			c.undecided(R("C01.lookup"), construct, p.ipos(r), "result has mixed origins: "+originStrings(origins(r.Results[0])))
+			c.undecided(R("C01.lookup"), construct, p.ipos(r), "result has mixed origins: "+originStrings(origins(vr.Vals[0])))
 		case foundFalse:
 			imp, wit := gcs.Implies(reach, gcs.Not(KF))
 			c.check(imp && onlyNil, R("C01.lookup"), construct, p.ipos(r), "reports 'not bound' only when the key is not in the table, with no slot", "a bound key can be reported as unknown (the call would then be load-balanced): "+wit)
